@@ -24,7 +24,9 @@ RULE = (
     "payloads, infinities, -0.0 and denormals occur, plus planted special values); "
     "load_into(existing Mineral with a different grain count) and from_file, for any "
     "previously saved entry in any order; fault steps: unequal snapshot counts, first or "
-    "later snapshot not matching n_grains, non-.npz names for both loaders. After every "
+    "later snapshot not matching n_grains (any snapshot index x fractions/orientations/both/"
+    "orientations without the grain axis x sizes 1, n-1, n+1, 2n, 0), "
+    "non-.npz names for both loaders. After every "
     "load the restored object is compared bit-for-bit with an in-memory model "
     "(dict archive -> postfix -> metadata + raw bytes); after every step the directory "
     "listing is checked against the model and every modelled entry must still be "
